@@ -40,25 +40,25 @@ func (c13) Rule() string {
 }
 
 type c13Scenario struct {
-	Records   int      `json:"records"`
-	Names     []string `json:"names_first_5"`
-	SeqLens   []int    `json:"sequence_lengths_first_20"`
-	Writer    string   `json:"writer"`
-	Wrap      string   `json:"wrap"`
-	LineEnd   string   `json:"line_end"`
-	Gzip      bool     `json:"gzip"`
-	Blank     int      `json:"blank_lines"`
-	Comments  int      `json:"comment_lines"`
-	Bytes     int      `json:"bytes"`
-	Lines     int      `json:"lines"`
-	Entry     string   `json:"entry"`
-	Cap       int      `json:"channel_capacity"`
-	Reader    string   `json:"reader_policy"`
-	Received  int      `json:"received"`
-	Closed    bool     `json:"channel_closed"`
-	End       string   `json:"scheduler_end"`
-	TextHead  string   `json:"text_head,omitempty"`
-	Panics    []core.PanicRec `json:"panics,omitempty"`
+	Records  int             `json:"records"`
+	Names    []string        `json:"names_first_5"`
+	SeqLens  []int           `json:"sequence_lengths_first_20"`
+	Writer   string          `json:"writer"`
+	Wrap     string          `json:"wrap"`
+	LineEnd  string          `json:"line_end"`
+	Gzip     bool            `json:"gzip"`
+	Blank    int             `json:"blank_lines"`
+	Comments int             `json:"comment_lines"`
+	Bytes    int             `json:"bytes"`
+	Lines    int             `json:"lines"`
+	Entry    string          `json:"entry"`
+	Cap      int             `json:"channel_capacity"`
+	Reader   string          `json:"reader_policy"`
+	Received int             `json:"received"`
+	Closed   bool            `json:"channel_closed"`
+	End      string          `json:"scheduler_end"`
+	TextHead string          `json:"text_head,omitempty"`
+	Panics   []core.PanicRec `json:"panics,omitempty"`
 }
 
 const c13NameChars = " !\"#$%&'()*+,-./0123456789:;<=>?@ABCDEFGHIJKLMNOPQRSTUVWXYZ[\\]^_`abcdefghijklmnopqrstuvwxyz{|}~"
@@ -82,13 +82,15 @@ func c13Name(t *core.Tape) string {
 func c13Seq(t *core.Tape, large bool) string {
 	var l int
 	if large {
-		switch t.Draw(6) {
-		case 0:
-			l = 65535 - 2 + t.Draw(5) // around the 64 KiB line buffer
-		case 1:
+		switch t.Draw(8) {
+		case 0, 1, 2:
+			// exactly at (and one off) a multiple of the 64 KiB line buffer; with CRLF the
+			// carriage return is the byte that lands on the boundary
+			l = 65536*(1+t.Draw(4)) + []int{0, 0, 0, -1, -1, 1, -2, 2}[t.Draw(8)]
+		case 3:
 			l = 65536 + t.Draw(2000)
-		case 2:
-			l = 131072 - 2 + t.Draw(5)
+		case 4:
+			l = 4096*(1+t.Draw(16)) + []int{0, -1, 1}[t.Draw(3)]
 		default:
 			l = 66000 + t.Draw(300000-66000+1)
 		}
@@ -140,7 +142,7 @@ func c13Write(t *core.Tape, recs []fasta.Fasta, sc *c13Scenario, large bool) ([]
 		return []int{1, 2, 3, 10, 60, 70, 80, 4095, 4096, 4097}[t.Draw(10)]
 	}
 	fixedW := pickWidth()
-	junk := !large
+	junk := !large || t.Draw(2) == 1
 	eol := func() {
 		crlf := crlfMode == 1 || (crlfMode == 2 && t.Draw(2) == 1)
 		if crlf {
@@ -216,8 +218,8 @@ func gz(b []byte) []byte {
 func (c13) Run(t *testing.T, tape *core.Tape, rcx *RunCtx) *core.Result {
 	res := &core.Result{}
 	sc := &c13Scenario{}
-	// every 400th run of the quick tier (every 300th of thorough) is a large one
-	large := rcx.Index%400 == 7
+	// every 40th run carries a sequence longer than any fixed line buffer
+	large := rcx.Index%40 == 7
 	nrec := 1
 	switch tape.Weighted(35, 40, 20, 5) {
 	case 0:
@@ -230,7 +232,7 @@ func (c13) Run(t *testing.T, tape *core.Tape, rcx *RunCtx) *core.Result {
 		nrec = 37 + tape.Draw(164)
 	}
 	if large {
-		nrec = 1 + tape.Draw(3)
+		nrec = 1 + tape.Draw(4)
 	}
 	sc.Records = nrec
 	recs := make([]fasta.Fasta, nrec)
